@@ -76,7 +76,7 @@ PARSE_STREAM_ENSURES = [
 M_OF_COMB = "meaning_of_ctor(parse_table({c}).1)"
 
 
-MODULES = ["core", "optable", "entries", "gen", "guards", "names", "det", "builder", "parse", "sep", "steps", "top", "step"]
+MODULES = ["core", "optable", "entries", "gen", "guards", "names", "det", "builder", "parse", "sep", "steps", "top", "step", "handler"]
 
 
 def common_units():
@@ -985,6 +985,29 @@ def guards_units():
     return u
 
 
+def handler_units():
+    """handler.rs: which keyword yields which Handler variant (C13), with syn's peeks as pure functions of the stream"""
+    u = []
+    u.append(ty(F_UNIT, "Unit", subst=[{"find": "<T: Clone + Debug, N: Clone + Debug>", "replace": "<T, N>", "why": "derive bounds are irrelevant to the data layout"}]))
+    u.append(raw("prelude_syn", _read("prelude_syn.rs")))
+    u.append(raw("specs_handler", _read("specs_handler.rs")))
+    PK = "proof { axiom_one_next_token(input, 1, 2); axiom_one_next_token(input, 1, 3); axiom_one_next_token(input, 2, 3); }"
+    u.append(fns(F_H, [
+        fn("peek_map_handler", "r", ensures=["r == (input.peeks(1) && input.peeks2(4))"]),
+        fn("peek_then_handler", "r", ensures=["r == (input.peeks(2) && input.peeks2(4))"]),
+        fn("peek_and_then_handler", "r", ensures=["r == (input.peeks(3) && input.peeks2(4))"]),
+        # `map =>`, `then =>` or `and_then =>` stands in the input
+        fn("peek_handler", "r", ensures=["r == (peeked_handler(input) != HKind::NoHandler)"], proof_prologue=PK),
+    ], self_ty="Handler"))
+    u.append(fns(F_H, [
+        # the handler built is the one whose keyword stands in the input; no keyword, no handler
+        fn("try_from", "r", ensures=["r is Ok ==> peeked_handler(input) != HKind::NoHandler && handler_kind(Some(&r->Ok_0)) == peeked_handler(input)"],
+           proof_prologue=PK,
+           subst=[{"find": "ParseStream<'a>", "replace": "ParseStream<'_>", "why": "the impl's lifetime parameter written as an anonymous one (the function is emitted in an inherent impl)", "sig": True}]),
+    ], self_ty="Handler", trait="TryFrom", header="impl Handler"))
+    return u
+
+
 def builder_units():
     """action_expr_chain/builder.rs: the `>>>`/`<<<` balance bookkeeping (C15) with the syn calls opaque"""
     u = []
@@ -1274,6 +1297,8 @@ def build_plan(repo, module):
         u += step_units()
     elif module == "guards":
         u += guards_units()
+    elif module == "handler":
+        u += handler_units()
     else:
         raise KeyError(module)
     u.append(raw("footer", "} // verus!\nfn main() {}\n"))
@@ -1313,7 +1338,7 @@ OBLIGATIONS = {
             ("gen", "JoinOutput::is_branch_active_in_step"), ("gen", "JoinOutput::generate_indexed_step_results_name"),
             ("gen", "JoinOutput::branch_result_name"), ("gen", "JoinOutput::branch_result_pat")],
     "C07": [("top", "generate_join"), ("top", "ji_futures_crate_path"), ("gen", "JoinOutput::wrap_into_block"), ("steps", "JoinOutput::generate_thread_builders_and_spawn_joiners"), ("steps", "JoinOutput::generate_step_tail"), ("steps", "lemma_concat_all"), ("entries", "lemma_entry_table"), ("top", "JoinOutput::to_tokens"), ("gen", "JoinOutput::generate_step_branch")],
-    "C13": [("top", "generate_join"), ("top", "ji_handler"), ("top", "JoinOutput::new"), ("top", "JoinOutput::to_tokens"), ("guards", "Handler::is_map"), ("guards", "Handler::is_then"), ("guards", "Handler::is_and_then"), ("guards", "new_guards"), ("gen", "JoinOutput::generate_handle"), ("gen", "JoinOutput::extract_results_tuple"), ("gen", "JoinOutput::generate_results_transposer")],
+    "C13": [("handler", "Handler::try_from"), ("handler", "Handler::peek_handler"), ("handler", "Handler::peek_map_handler"), ("handler", "Handler::peek_then_handler"), ("handler", "Handler::peek_and_then_handler"), ("top", "generate_join"), ("top", "ji_handler"), ("top", "JoinOutput::new"), ("top", "JoinOutput::to_tokens"), ("guards", "Handler::is_map"), ("guards", "Handler::is_then"), ("guards", "Handler::is_and_then"), ("guards", "new_guards"), ("gen", "JoinOutput::generate_handle"), ("gen", "JoinOutput::extract_results_tuple"), ("gen", "JoinOutput::generate_results_transposer")],
     "C09": [("gen", "JoinOutput::expand_process_expr"), ("steps", "JoinOutput::generate_step_tail"), ("top", "JoinOutput::to_tokens"), ("step", "JoinOutput::generate_step"), ("step", "lemma_apos_step"), ("step", "lemma_apos_ends"), ("gen", "JoinOutput::generate_step_branch")],
     # the steps of every kind sit in a plain block of the scope the macro is called in (no closure / thread / box of
     # the macro's own between the caller's locals and the branch expressions)
